@@ -293,10 +293,17 @@ def validate_natively(prop, cases, results, cldr, limit, per_project=False):
                     reqs.append({"locale": loc, "path": hk["path"], "fields": fields, "strings": strings,
                                  "nums": {k: {"ty": v["ty"], "v": v["v"]} for k, v in nums.items()}, "macro": "td_string"})
                     meta.append((ns, path, env, gen, ref))
+                    if any(f.startswith("comp_") for f in fields) and loc == h["locales"][0] and nums is combos[0]:
+                        # the component forms the library itself provides (leptos_i18n/src/display.rs)
+                        for ck in ("str", "string", "dc0", "dc1", "dc2", "dc3"):
+                            for mac in ("td_string", "td_display"):
+                                reqs.append(dict(reqs[-1] if False else {"locale": loc, "path": hk["path"], "fields": fields, "strings": strings,
+                                                 "nums": {k: {"ty": v["ty"], "v": v["v"]} for k, v in nums.items()}}, macro=mac, comp_kind=ck))
+                                meta.append((ns, path, dict(env, comp=ck), gen, ref))
         if not reqs:
             continue
         done_families.add(fam)
-        reqs, meta = reqs[:400], meta[:400]
+        reqs, meta = reqs[:700], meta[:700]
         try:
             actuals = replay.run_requests(c.dir, reqs)
         except replay.ReplayError as e:
